@@ -23,6 +23,7 @@ type parseRes struct {
 type symFS struct {
 	files  map[string]Str
 	dirs   map[string]bool
+	links  map[string]string // symbolic links: path -> target path (may dangle)
 	writes []string
 	parse  map[string]parseRes
 	bases  map[*Value]int // next file base of every token.FileSet handed to the parser
@@ -84,28 +85,79 @@ func shiftPos(v Value, t types.Type, delta int, seen map[*Value]*Value) Value {
 
 func (in *Interp) vfs() *symFS {
 	if in.fs == nil {
-		in.fs = &symFS{files: map[string]Str{}, dirs: map[string]bool{}, parse: map[string]parseRes{}, bases: map[*Value]int{}}
+		in.fs = &symFS{files: map[string]Str{}, dirs: map[string]bool{}, links: map[string]string{}, parse: map[string]parseRes{}, bases: map[*Value]int{}}
 	}
 	return in.fs
 }
 
-type fileHandle struct{ path string }
+type fileHandle struct {
+	path   string
+	off    int
+	flags  int
+	closed bool
+}
 type fakeDirEntry struct {
 	name string
 	dir  bool
+	link bool
+	path string
+}
+
+// resolve follows symbolic links (at most 8 hops); ok = false for a dangling link or a loop
+func (f *symFS) resolve(path string) (string, bool) {
+	for i := 0; i < 8; i++ {
+		t, isLink := f.links[path]
+		if !isLink {
+			return path, true
+		}
+		if !filepath.IsAbs(t) {
+			t = filepath.Join(filepath.Dir(path), t)
+		}
+		path = t
+	}
+	return path, false
+}
+
+func (f *symFS) exists(path string) bool {
+	_, isFile := f.files[path]
+	return isFile || f.dirs[path]
+}
+
+func (in *Interp) notExist(fr *frame, op, path string) Value {
+	return in.mkError(fr, mkStr(op+" "+path+": no such file or directory"))
+}
+
+func (f *symFS) infoOf(path string, name string) Value {
+	sz := int64(0)
+	if c, ok := f.files[path]; ok {
+		sz = int64(len(c.bytes()))
+	}
+	return Iface{T: fileInfoMarker, V: Native{V: fakeFileInfo{name: name, dir: f.dirs[path], size: sz}}}
 }
 
 var dirEntryMarker types.Type
 
 func (f *symFS) stat(in *Interp, fr *frame, p Str) Value {
-	path := p.mustConcrete()
-	if f.dirs[strings.TrimSuffix(path, "/")] {
-		return Tuple{Iface{T: fileInfoMarker, V: Native{V: fakeFileInfo{dir: true}}}, nilError()}
+	path := strings.TrimSuffix(p.mustConcrete(), "/")
+	if path == "" {
+		path = "/"
 	}
-	if _, ok := f.files[path]; ok {
-		return Tuple{Iface{T: fileInfoMarker, V: Native{V: fakeFileInfo{dir: false}}}, nilError()}
+	rp, ok := f.resolve(path)
+	if !ok || !f.exists(rp) {
+		return Tuple{Iface{}, in.notExist(fr, "stat", path)}
 	}
-	return Tuple{Iface{}, in.mkError(fr, mkStr("stat "+path+": no such file or directory"))}
+	return Tuple{f.infoOf(rp, filepath.Base(path)), nilError()}
+}
+
+func (f *symFS) lstat(in *Interp, fr *frame, p Str) Value {
+	path := strings.TrimSuffix(p.mustConcrete(), "/")
+	if _, isLink := f.links[path]; isLink {
+		return Tuple{Iface{T: fileInfoMarker, V: Native{V: fakeFileInfo{name: filepath.Base(path), link: true}}}, nilError()}
+	}
+	if !f.exists(path) {
+		return Tuple{Iface{}, in.notExist(fr, "lstat", path)}
+	}
+	return Tuple{f.infoOf(path, filepath.Base(path)), nilError()}
 }
 
 func (in *Interp) fileOf(v Value) *fileHandle {
@@ -139,8 +191,14 @@ func init() {
 		in.vfs().dirs["/vfs/"+strings.TrimSuffix(strArg(a[0]).mustConcrete(), "/")] = true
 		return nil
 	}
+	harnessAPI["vFSSymlink"] = func(in *Interp, fr *frame, a []Value) Value {
+		// vFSSymlink(rel, targetRel): a symbolic link at rel pointing at targetRel (which need not exist)
+		in.vfs().links["/vfs/"+strArg(a[0]).mustConcrete()] = "/vfs/" + strArg(a[1]).mustConcrete()
+		return nil
+	}
 	harnessAPI["vFSGet"] = func(in *Interp, fr *frame, a []Value) Value {
-		s, ok := in.vfs().files["/vfs/"+strArg(a[0]).mustConcrete()]
+		p, _ := in.vfs().resolve("/vfs/" + strArg(a[0]).mustConcrete())
+		s, ok := in.vfs().files[p]
 		return Tuple{s, mkBool(ok)}
 	}
 	harnessAPI["vFSWrites"] = func(in *Interp, fr *frame, a []Value) Value {
@@ -193,38 +251,265 @@ func init() {
 		}
 		return Tuple{r.file, nilError()}
 	})
-	reg("os.Open", func(in *Interp, fr *frame, a []Value) Value {
-		path := strArg(a[0]).mustConcrete()
-		if _, ok := in.vfs().files[path]; !ok {
-			return Tuple{(*Value)(nil), in.mkError(fr, mkStr("open "+path+": no such file or directory"))}
+	const (
+		oWRONLY = 0x1
+		oRDWR   = 0x2
+		oAPPEND = 0x400
+		oCREATE = 0x40
+		oEXCL   = 0x80
+		oTRUNC  = 0x200
+	)
+	openFile := func(in *Interp, fr *frame, name string, flags int) Value {
+		f := in.vfs()
+		path, ok := f.resolve(name)
+		if !ok {
+			return Tuple{(*Value)(nil), in.notExist(fr, "open", name)}
 		}
-		var cell Value = Native{V: &fileHandle{path: path}}
+		if f.dirs[path] {
+			if flags&(oWRONLY|oRDWR) != 0 {
+				return Tuple{(*Value)(nil), in.mkError(fr, mkStr("open "+name+": is a directory"))}
+			}
+			var cell Value = Native{V: &fileHandle{path: path, flags: flags}}
+			return Tuple{&cell, nilError()}
+		}
+		if _, exists := f.files[path]; !exists {
+			if flags&oCREATE == 0 || !f.dirs[filepath.Dir(path)] {
+				return Tuple{(*Value)(nil), in.notExist(fr, "open", name)}
+			}
+			f.files[path] = mkStr("")
+			f.writes = append(f.writes, path)
+		} else if flags&oCREATE != 0 && flags&oEXCL != 0 {
+			return Tuple{(*Value)(nil), in.mkError(fr, mkStr("open "+name+": file exists"))}
+		} else if flags&oTRUNC != 0 && flags&(oWRONLY|oRDWR) != 0 {
+			f.files[path] = mkStr("")
+			f.writes = append(f.writes, path)
+		}
+		var cell Value = Native{V: &fileHandle{path: path, flags: flags}}
 		return Tuple{&cell, nilError()}
+	}
+	reg("os.Open", func(in *Interp, fr *frame, a []Value) Value {
+		return openFile(in, fr, strArg(a[0]).mustConcrete(), 0)
+	})
+	reg("os.OpenFile", func(in *Interp, fr *frame, a []Value) Value {
+		return openFile(in, fr, strArg(a[0]).mustConcrete(), asInt(a[1]))
+	})
+	reg("os.Create", func(in *Interp, fr *frame, a []Value) Value {
+		return openFile(in, fr, strArg(a[0]).mustConcrete(), oRDWR|oCREATE|oTRUNC)
 	})
 	reg("(*os.File).Close", func(in *Interp, fr *frame, a []Value) Value {
 		if p, ok := a[0].(*Value); ok && p == nil {
 			return in.mkError(fr, mkStr("invalid argument"))
 		}
+		h := in.fileOf(a[0])
+		if h.closed {
+			return in.mkError(fr, mkStr("close "+h.path+": file already closed"))
+		}
+		h.closed = true
 		return nilError()
 	})
+	closedErr := func(in *Interp, fr *frame, op string, h *fileHandle) Value {
+		return in.mkError(fr, mkStr(op+" "+h.path+": file already closed"))
+	}
 	readAll := func(in *Interp, fr *frame, a []Value) Value {
 		h := in.fileOf(a[0])
-		return Tuple{bytesToValues(in.vfs().files[h.path].bytes()), nilError()}
+		if h.closed {
+			return Tuple{[]Value(nil), closedErr(in, fr, "read", h)}
+		}
+		if h.flags&oWRONLY != 0 {
+			return Tuple{[]Value(nil), in.mkError(fr, mkStr("read "+h.path+": bad file descriptor"))}
+		}
+		bs := in.vfs().files[h.path].bytes()
+		if h.off > len(bs) {
+			h.off = len(bs)
+		}
+		out := bytesToValues(bs[h.off:])
+		h.off = len(bs)
+		return Tuple{out, nilError()}
 	}
 	reg("io/ioutil.ReadAll", readAll)
 	reg("io.ReadAll", readAll)
-	readFile := func(in *Interp, fr *frame, a []Value) Value {
+	reg("(*os.File).Read", func(in *Interp, fr *frame, a []Value) Value {
+		h := in.fileOf(a[0])
+		if h.closed {
+			return Tuple{goInt(0), closedErr(in, fr, "read", h)}
+		}
+		dst, _ := a[1].([]Value)
+		bs := in.vfs().files[h.path].bytes()
+		if len(dst) == 0 {
+			return Tuple{goInt(0), nilError()}
+		}
+		if h.off >= len(bs) {
+			return Tuple{goInt(0), *in.frGlobal(fr, "io", "EOF")}
+		}
+		n := copy(dst, bytesToValues(bs[h.off:]))
+		h.off += n
+		return Tuple{goInt(n), nilError()}
+	})
+	writeAt := func(in *Interp, fr *frame, h *fileHandle, data []Value, off int) {
+		f := in.vfs()
+		old := f.files[h.path].bytes()
+		var nb []SByte
+		if off > len(old) {
+			nb = append(nb, old...)
+			for len(nb) < off {
+				nb = append(nb, SByte{})
+			}
+		} else {
+			nb = append(nb, old[:off]...)
+		}
+		nb = append(nb, valuesToStr(data).bytes()...)
+		if off+len(data) < len(old) {
+			nb = append(nb, old[off+len(data):]...)
+		}
+		f.files[h.path] = strOfBytes(nb)
+		f.writes = append(f.writes, h.path)
+	}
+	write := func(in *Interp, fr *frame, a0 Value, data []Value) Value {
+		h := in.fileOf(a0)
+		if h.closed {
+			return Tuple{goInt(0), closedErr(in, fr, "write", h)}
+		}
+		if h.flags&(oWRONLY|oRDWR) == 0 {
+			return Tuple{goInt(0), in.mkError(fr, mkStr("write "+h.path+": bad file descriptor"))}
+		}
+		for _, v := range data {
+			if _, isRope := v.(ropeInBytes); isRope {
+				panic(engineErr("(*os.File).Write of a number rendered from a symbolic value"))
+			}
+		}
+		if h.flags&oAPPEND != 0 {
+			h.off = len(in.vfs().files[h.path].bytes())
+		}
+		writeAt(in, fr, h, data, h.off)
+		h.off += len(data)
+		return Tuple{goInt(len(data)), nilError()}
+	}
+	reg("(*os.File).Write", func(in *Interp, fr *frame, a []Value) Value {
+		data, _ := a[1].([]Value)
+		return write(in, fr, a[0], data)
+	})
+	reg("(*os.File).WriteString", func(in *Interp, fr *frame, a []Value) Value {
+		return write(in, fr, a[0], bytesToValues(strArg(a[1]).bytes()))
+	})
+	reg("(*os.File).WriteAt", func(in *Interp, fr *frame, a []Value) Value {
+		h := in.fileOf(a[0])
+		data, _ := a[1].([]Value)
+		if h.closed || h.flags&(oWRONLY|oRDWR) == 0 {
+			return Tuple{goInt(0), in.mkError(fr, mkStr("write "+h.path+": bad file descriptor"))}
+		}
+		writeAt(in, fr, h, data, asInt(a[2]))
+		return Tuple{goInt(len(data)), nilError()}
+	})
+	reg("(*os.File).Seek", func(in *Interp, fr *frame, a []Value) Value {
+		h := in.fileOf(a[0])
+		off, whence := asInt(a[1]), asInt(a[2])
+		switch whence {
+		case 1:
+			off += h.off
+		case 2:
+			off += len(in.vfs().files[h.path].bytes())
+		}
+		if off < 0 {
+			return Tuple{mkInt(types.Int64, 0), in.mkError(fr, mkStr("seek "+h.path+": invalid argument"))}
+		}
+		h.off = off
+		return Tuple{mkInt(types.Int64, int64(off)), nilError()}
+	})
+	truncate := func(in *Interp, fr *frame, path string, n int) Value {
+		f := in.vfs()
+		bs := f.files[path].bytes()
+		if n <= len(bs) {
+			bs = bs[:n:n]
+		} else {
+			for len(bs) < n {
+				bs = append(bs, SByte{})
+			}
+		}
+		f.files[path] = strOfBytes(bs)
+		f.writes = append(f.writes, path)
+		return nilError()
+	}
+	reg("(*os.File).Truncate", func(in *Interp, fr *frame, a []Value) Value {
+		h := in.fileOf(a[0])
+		if h.flags&(oWRONLY|oRDWR) == 0 {
+			return in.mkError(fr, mkStr("truncate "+h.path+": invalid argument"))
+		}
+		return truncate(in, fr, h.path, asInt(a[1]))
+	})
+	reg("os.Truncate", func(in *Interp, fr *frame, a []Value) Value {
+		f := in.vfs()
+		path, ok := f.resolve(strArg(a[0]).mustConcrete())
+		if _, isFile := f.files[path]; !ok || !isFile {
+			return in.notExist(fr, "truncate", path)
+		}
+		return truncate(in, fr, path, asInt(a[1]))
+	})
+	reg("(*os.File).Sync", func(in *Interp, fr *frame, a []Value) Value { return nilError() })
+	reg("(*os.File).Chmod", func(in *Interp, fr *frame, a []Value) Value { return nilError() })
+	reg("os.Chmod", func(in *Interp, fr *frame, a []Value) Value { return nilError() })
+	reg("(*os.File).Name", func(in *Interp, fr *frame, a []Value) Value { return mkStr(in.fileOf(a[0]).path) })
+	reg("(*os.File).Stat", func(in *Interp, fr *frame, a []Value) Value {
+		h := in.fileOf(a[0])
+		return Tuple{in.vfs().infoOf(h.path, filepath.Base(h.path)), nilError()}
+	})
+	reg("os.Lstat", func(in *Interp, fr *frame, a []Value) Value { return in.vfs().lstat(in, fr, strArg(a[0])) })
+	reg("os.Remove", func(in *Interp, fr *frame, a []Value) Value {
+		f := in.vfs()
 		path := strArg(a[0]).mustConcrete()
-		s, ok := in.vfs().files[path]
-		if !ok {
-			return Tuple{[]Value(nil), in.mkError(fr, mkStr("open "+path+": no such file or directory"))}
+		if _, isLink := f.links[path]; isLink {
+			delete(f.links, path)
+			return nilError()
+		}
+		if _, isFile := f.files[path]; isFile {
+			delete(f.files, path)
+			f.writes = append(f.writes, path)
+			return nilError()
+		}
+		if f.dirs[path] {
+			delete(f.dirs, path)
+			return nilError()
+		}
+		return in.notExist(fr, "remove", path)
+	})
+	reg("os.Rename", func(in *Interp, fr *frame, a []Value) Value {
+		f := in.vfs()
+		from, to := strArg(a[0]).mustConcrete(), strArg(a[1]).mustConcrete()
+		c, isFile := f.files[from]
+		if !isFile {
+			return in.mkError(fr, mkStr("rename "+from+" "+to+": no such file or directory"))
+		}
+		delete(f.files, from)
+		f.files[to] = c
+		f.writes = append(f.writes, from, to)
+		return nilError()
+	})
+	reg("os.Readlink", func(in *Interp, fr *frame, a []Value) Value {
+		path := strArg(a[0]).mustConcrete()
+		if t, ok := in.vfs().links[path]; ok {
+			return Tuple{mkStr(t), nilError()}
+		}
+		return Tuple{mkStr(""), in.mkError(fr, mkStr("readlink "+path+": invalid argument"))}
+	})
+	readFile := func(in *Interp, fr *frame, a []Value) Value {
+		name := strArg(a[0]).mustConcrete()
+		path, ok := in.vfs().resolve(name)
+		s, isFile := in.vfs().files[path]
+		if !ok || !isFile {
+			if ok && in.vfs().dirs[path] {
+				return Tuple{[]Value(nil), in.mkError(fr, mkStr("read "+name+": is a directory"))}
+			}
+			return Tuple{[]Value(nil), in.notExist(fr, "open", name)}
 		}
 		return Tuple{bytesToValues(s.bytes()), nilError()}
 	}
 	reg("os.ReadFile", readFile)
 	reg("io/ioutil.ReadFile", readFile)
 	writeFile := func(in *Interp, fr *frame, a []Value) Value {
-		path := strArg(a[0]).mustConcrete()
+		name := strArg(a[0]).mustConcrete()
+		path, ok := in.vfs().resolve(name)
+		if !ok || in.vfs().dirs[path] {
+			return in.mkError(fr, mkStr("open "+name+": is a directory or a broken link"))
+		}
 		data, _ := a[1].([]Value)
 		in.vfs().files[path] = valuesToStr(data)
 		in.vfs().writes = append(in.vfs().writes, path)
@@ -249,6 +534,11 @@ func init() {
 				names[filepath.Base(d)] = true
 			}
 		}
+		for l := range f.links {
+			if filepath.Dir(l) == dir {
+				names[filepath.Base(l)] = false
+			}
+		}
 		var sorted []string
 		for n := range names {
 			sorted = append(sorted, n)
@@ -256,7 +546,8 @@ func init() {
 		sort.Strings(sorted)
 		var out []Value
 		for _, n := range sorted {
-			out = append(out, Iface{T: dirEntryMarker, V: Native{V: fakeDirEntry{name: n, dir: names[n]}}})
+			_, isLink := f.links[filepath.Join(dir, n)]
+			out = append(out, Iface{T: dirEntryMarker, V: Native{V: fakeDirEntry{name: n, dir: names[n], link: isLink, path: filepath.Join(dir, n)}}})
 		}
 		return Tuple{out, nilError()}
 	})
@@ -358,6 +649,9 @@ func init() {
 		}
 		for d := range f.dirs {
 			all = append(all, d)
+		}
+		for l := range f.links {
+			all = append(all, l) // Glob uses Lstat: dangling links match too
 		}
 		sort.Strings(all)
 		var out []Value
